@@ -601,6 +601,13 @@ func (f *e1func) runInlined(st *fstate, c *ast.CallExpr, callee *FuncInfo) *inlR
 					r = ct // the value of a single-result call is the call term itself
 				}
 				if op.K == "var" && g.isLocalObj(op.Obj) {
+					// a returned local that holds a fresh allocation (new(T), &T{...}) is never nil
+					if d := g.defOf(ns, op); d != nil && len(d.A) == 2 {
+						v := d.A[1]
+						if (v.K == "call" && v.S == "new") || (v.K == "op" && v.S == "&" && len(v.A) == 1 && v.A[0].K == "lit") {
+							more = append(more, fact("nonnil", r))
+						}
+					}
 					n2 := ns.clone()
 					ok := op.Key()
 					for k, fc := range ns.facts {
